@@ -146,8 +146,12 @@ func runC17(rc *RunCtx) {
 			data["associated_data"] = b64(c.aad)
 		}
 		resp, err := hh.Do("dec", Req{Op: logical.UpdateOperation, Path: "transit/decrypt/" + c.key.name, Token: hh.Root, Data: data})
-		if err == nil && resp != nil && resp.IsError() {
-			err = resp.Error()
+		if resp != nil && resp.IsError() {
+			if err == nil {
+				err = resp.Error()
+			} else {
+				err = fmt.Errorf("%v (%v)", resp.Error(), err)
+			}
 		}
 		want := expectDecrypt(c, c.key.minDec, c.key.minAvail)
 		alt := want
@@ -556,6 +560,8 @@ func runC17(rc *RunCtx) {
 			_, err, inj := do(Req{Op: logical.UpdateOperation, Path: "transit/keys/" + k.name + "/trim", Token: h.Root, Data: map[string]any{"min_available_version": na}}, failK())
 			note("trim %s min_avail=%d -> %v (injected=%v)", k.name, na, err == nil, inj)
 			oldAvail := k.minAvail
+			crashChecked := false
+			trimFault := lastFaultDesc
 			if err == nil {
 				if na > k.minDec || (k.minEnc > 0 && na > k.minEnc) || (k.minEnc == 0 && na > k.latest) {
 					viol("trim-above-min-versions", nil, "trim of %s to %d accepted with min_dec %d min_enc %d latest %d", k.name, na, k.minDec, k.minEnc, k.latest)
@@ -564,10 +570,65 @@ func runC17(rc *RunCtx) {
 				if na > k.minAvail {
 					k.minAvail = na
 				}
-			} else if !unchanged(k, "trim") {
-				return
+			} else {
+				if !unchanged(k, "trim") {
+					return
+				}
+				if !crashCheck("trim", from, k, k.minDec, oldAvail) {
+					return
+				}
+				crashChecked = true
+				// ... and the failed trim must not have damaged what is only
+				// visible later: lower min_decryption_version to the oldest
+				// version that should still be available, every ciphertext from
+				// there on must decrypt, then put the setting back. (A trim is
+				// two writes - archive, policy; on non-transactional storage an
+				// error between them leaves a shortened archive under a policy
+				// that still indexes it from the old minimum.)
+				if lo := max(1, k.minAvail); inj && k.minDec > lo {
+					oldDec := k.minDec
+					_, e, _ := do(Req{Op: logical.UpdateOperation, Path: "transit/keys/" + k.name + "/config", Token: h.Root, Data: map[string]any{"min_decryption_version": lo}}, 0)
+					if e != nil {
+						viol("failed-mutation-changed-state", map[string]any{"op": "trim", "commit_failed": strings.HasPrefix(trimFault, "commit"), "torn_archive": true, "plain_disk": opts.Plain},
+							"trim of %s returned an error (storage fault at %q) and the key reports unchanged settings, but min_decryption_version can no longer be lowered back to %d: %v", k.name, trimFault, lo, e)
+						return
+					}
+					if e == nil {
+						k.minDec = lo
+						for _, c := range cts {
+							if c.key != k || !expectDecrypt(c, k.minDec, k.minAvail) {
+								continue
+							}
+							data := map[string]any{"ciphertext": c.ct}
+							if c.ctx != nil {
+								data["context"] = b64(c.ctx)
+							}
+							if c.aad != nil {
+								data["associated_data"] = b64(c.aad)
+							}
+							r2, e2 := h.Do("dec", Req{Op: logical.UpdateOperation, Path: "transit/decrypt/" + k.name, Token: h.Root, Data: data})
+							if e2 == nil && r2 != nil && r2.IsError() {
+								e2 = r2.Error()
+							}
+							got := ""
+							if e2 == nil && r2 != nil {
+								b, _ := base64.StdEncoding.DecodeString(fmt.Sprint(r2.Data["plaintext"]))
+								got = string(b)
+							}
+							if e2 != nil || got != string(c.pt) {
+								viol("failed-mutation-changed-state", map[string]any{"op": "trim", "commit_failed": strings.HasPrefix(trimFault, "commit"), "torn_archive": true, "plain_disk": opts.Plain},
+									"trim of %s returned an error (storage fault at %q) and the key reports unchanged settings, but after lowering min_decryption_version back to %d its v%d ciphertext no longer decrypts (%v, got %q): the failed trim altered the archive", k.name, trimFault, lo, c.version, e2, got)
+								return
+							}
+						}
+						if _, e, _ := do(Req{Op: logical.UpdateOperation, Path: "transit/keys/" + k.name + "/config", Token: h.Root, Data: map[string]any{"min_decryption_version": oldDec}}, 0); e == nil {
+							k.minDec = oldDec
+						}
+						s.Probe("failed_trim_deep_check")
+					}
+				}
 			}
-			if !crashCheck("trim", from, k, k.minDec, oldAvail) {
+			if !crashChecked && !crashCheck("trim", from, k, k.minDec, oldAvail) {
 				return
 			}
 		case op == 11 && (k.canSign || k.canHMAC): // sign / hmac
